@@ -5,6 +5,7 @@ All statements quantify over every configuration and every event sequence (every
 close / GC interleaving) the model can take from the initial state; proofs are by induction over the sequence.
 -/
 import JanetModel.Loop.Model
+import JanetModel.Loop.SelfPipe
 import JanetModel.Loop.FdsSpawn
 import JanetModel.Loop.Child
 
@@ -45,6 +46,7 @@ def CallInv (s : St) : Prop := s.awaits + s.noFiber + s.procWaits = s.calls
 /-- roots held by event-loop operations -/
 def RootInv (s : St) : Prop :=
   s.roots = (s.lis : Int) + s.orphanStreams + s.awaits + 2 * s.procWaits + s.tchanPending + s.tchanLeaked
+    + s.sigs.length + s.watching
 
 def Inv (s : St) : Prop := CounterInv s ∧ CallInv s ∧ RootInv s
 
@@ -220,6 +222,29 @@ theorem step_inv (cfg : Cfg) {s s' : St} {e : Ev} (hi : Inv s) (h : step cfg s e
     by_cases h1 : s.orphanLis + n ≤ s.lis
     · rw [if_pos h1] at h; simp at h; subst h; exact ⟨hc, hk, hr⟩
     · rw [if_neg h1] at h; simp at h
+  | sigaction sig install =>
+    simp only [step] at h
+    simp at h; subst h
+    refine ⟨hc, hk, ?_⟩
+    simp only [RootInv]
+    have hlen := List.length_erase (a := sig) (l := s.sigs)
+    by_cases hm : sig ∈ s.sigs
+    · have hpos : 0 < s.sigs.length := List.length_pos_of_mem hm
+      rw [if_pos hm] at hlen
+      cases install <;> simp [hm, hlen] <;> omega
+    · rw [if_neg hm] at hlen
+      cases install <;> simp [hm, hlen] <;> omega
+  | watchListen =>
+    simp [step] at h; subst h
+    refine ⟨hc, hk, ?_⟩
+    simp only [RootInv]; omega
+  | watchUnlisten =>
+    simp only [step] at h
+    by_cases h1 : s.watching = 0
+    · rw [if_pos h1] at h; simp at h
+    · rw [if_neg h1] at h; simp at h; subst h
+      refine ⟨hc, hk, ?_⟩
+      simp only [RootInv]; omega
 
 theorem run_inv (cfg : Cfg) : ∀ (evs : List Ev) {s s' : St}, Inv s → run cfg s evs = some s' → Inv s'
   | [], s, s', hi, h => by simp [run] at h; subst h; exact hi
@@ -586,10 +611,11 @@ theorem janetLoop_exit_nothing_outstanding (cfg : Cfg) (is : List StepIn) {s : S
 
 /-- ★ every gcroot made by an operation has a matching gcunroot on every completion path: once nothing is outstanding,
     the only roots left are those of fibers still queued on threaded channels, of consumed queue entries whose root the
-    tree does not release, and of streams orphaned by the collector's path -/
+    tree does not release, of streams orphaned by the collector's path, and (session 4: os/sigaction and filewatch are part of
+    the model) of the signal handlers currently installed and the file watchers currently listening -/
 theorem roots_balanced (cfg : Cfg) (evs : List Ev) {s : St} (h : run cfg init evs = some s)
     (hl : s.lis = 0) (hcalls : s.calls = 0) :
-    s.roots = (s.tchanPending : Int) + s.tchanLeaked + s.orphanStreams := by
+    s.roots = (s.tchanPending : Int) + s.tchanLeaked + s.orphanStreams + s.sigs.length + s.watching := by
   obtain ⟨_, hk, hr⟩ := run_inv cfg evs inv_init h
   unfold CallInv at hk
   unfold RootInv at hr
@@ -640,9 +666,11 @@ theorem tchanLeaked_zero (cfg : Cfg) (hcfg : cfg.tchanUnroot = true) :
     (streams orphaned by the collector aside) -/
 theorem roots_balanced_released (cfg : Cfg) (hcfg : cfg.tchanUnroot = true) (evs : List Ev) {s : St}
     (h : run cfg init evs = some s) (hl : s.lis = 0) (hcalls : s.calls = 0) (hp : s.tchanPending = 0)
-    (ho : s.orphanStreams = 0) : s.roots = 0 := by
+    (ho : s.orphanStreams = 0) (hsig : s.sigs = []) (hw : s.watching = 0) : s.roots = 0 := by
   have h1 := roots_balanced cfg evs h hl hcalls
   have h2 := tchanLeaked_zero cfg hcfg evs (s := init) rfl h
+  rw [hsig] at h1
+  simp at h1
   omega
 
 /-- without it (the pinned tree: `Gen.Loop.tchanUnrootCb = false`) one blocking take on a threaded channel pins the fiber
@@ -680,6 +708,175 @@ example : (janetLoop Cfg.ofGen { init with runq := [1] }
     [ { expired := [], tasks := [⟨1, false, [.sched 2], false⟩, ⟨2, false, [.tadd ⟨2, false⟩], true⟩], stale := fun _ => false, delivered := [] },
       { expired := [(⟨2, false⟩, some 2)], tasks := [⟨2, false, [], false⟩], stale := fun _ => false, delivered := [] } ]).map summary
     = some (0, 0, true, true, 0) := by decide
+
+/-! ## the self pipe: every completion written by another thread is delivered (session 4)
+
+Model `JanetModel.Loop.SelfPipe`: events in the pipe, the edge-triggered registration's "ready" bit, `janet_ev_handle_selfpipe`
+as a loop of reads of `batch` events.  `Cfg.ofGen` is regenerated from the source. -/
+
+section SelfPipeSec
+open JanetModel.Loop.SelfPipe (handle reported stranded)
+
+/-- tie: the handler in the tree reads again after every successful read and fetches at least one whole event per read -/
+theorem selfpipe_cfg_drains : SelfPipe.Cfg.ofGen.recur = true ∧ 1 ≤ SelfPipe.Cfg.ofGen.batch := by decide
+
+/-- the handler neither loses nor invents events -/
+theorem selfpipe_handle_conserve (cfg : SelfPipe.Cfg) :
+    ∀ fuel pipe d, (handle cfg fuel pipe d).1 + (handle cfg fuel pipe d).2 = pipe + d
+  | 0, pipe, d => by simp [handle]
+  | fuel + 1, pipe, d => by
+    by_cases hp : pipe = 0
+    · simp [handle, hp]
+    · by_cases hr : cfg.recur = true
+      · have ih := selfpipe_handle_conserve cfg fuel (pipe - min cfg.batch pipe) (d + min cfg.batch pipe)
+        simp only [handle, if_neg hp, hr, if_true]
+        omega
+      · simp only [handle, if_neg hp, hr]
+        simp
+        omega
+
+/-- a handler that reads again after every successful read (at least one event per read) returns with the pipe empty -/
+theorem selfpipe_handle_drains (cfg : SelfPipe.Cfg) (hr : cfg.recur = true) (hb : 1 ≤ cfg.batch) :
+    ∀ fuel pipe d, pipe ≤ fuel → (handle cfg fuel pipe d).1 = 0
+  | 0, pipe, d, h => by
+    have : pipe = 0 := by omega
+    simp [handle, this]
+  | fuel + 1, pipe, d, h => by
+    by_cases hp : pipe = 0
+    · simp [handle, hp]
+    · simp only [handle, if_neg hp, hr, if_true]
+      exact selfpipe_handle_drains cfg hr hb fuel _ _ (by omega)
+
+private theorem sp_run_append (cfg : SelfPipe.Cfg) : ∀ (a b : List SelfPipe.Ev) (p : SelfPipe.P),
+    SelfPipe.run cfg p (a ++ b) = SelfPipe.run cfg (SelfPipe.run cfg p a) b
+  | [], b, p => rfl
+  | e :: a, b, p => by simp only [List.cons_append, SelfPipe.run]; exact sp_run_append cfg a b _
+
+/-- conservation, for every configuration and every interleaving of writes and polls: written = delivered + still in the pipe -/
+theorem selfpipe_conservation (cfg : SelfPipe.Cfg) : ∀ (evs : List SelfPipe.Ev) (p : SelfPipe.P),
+    p.written = p.delivered + p.pipe → (SelfPipe.run cfg p evs).written = (SelfPipe.run cfg p evs).delivered + (SelfPipe.run cfg p evs).pipe
+  | [], p, h => h
+  | e :: es, p, h => by
+    simp only [SelfPipe.run]
+    apply selfpipe_conservation cfg es
+    cases e with
+    | write => simp only [SelfPipe.step]; omega
+    | poll =>
+      simp only [SelfPipe.step]
+      by_cases hrep : reported cfg p = true
+      · rw [if_pos hrep]
+        have := selfpipe_handle_conserve cfg p.pipe p.pipe p.delivered
+        simp only
+        omega
+      · rw [if_neg hrep]; exact h
+
+/-- "no event is stranded": the pipe is empty or its edge is still pending -/
+def SpInv (p : SelfPipe.P) : Prop := p.pipe = 0 ∨ p.armed = true
+
+private theorem sp_step_inv (cfg : SelfPipe.Cfg) (hr : cfg.recur = true) (hb : 1 ≤ cfg.batch) (p : SelfPipe.P) (e : SelfPipe.Ev)
+    (h : SpInv p) : SpInv (SelfPipe.step cfg p e) := by
+  cases e with
+  | write => right; simp [SelfPipe.step]
+  | poll =>
+    simp only [SelfPipe.step]
+    by_cases hrep : reported cfg p = true
+    · rw [if_pos hrep]
+      left
+      exact selfpipe_handle_drains cfg hr hb p.pipe p.pipe p.delivered (Nat.le_refl _)
+    · rw [if_neg hrep]; exact h
+
+private theorem sp_run_inv (cfg : SelfPipe.Cfg) (hr : cfg.recur = true) (hb : 1 ≤ cfg.batch) :
+    ∀ (evs : List SelfPipe.Ev) (p : SelfPipe.P), SpInv p → SpInv (SelfPipe.run cfg p evs)
+  | [], p, h => h
+  | e :: es, p, h => by
+    simp only [SelfPipe.run]
+    exact sp_run_inv cfg hr hb es _ (sp_step_inv cfg hr hb p e h)
+
+/-- ★ with a draining handler no event is ever stranded: after ANY interleaving of writes by other threads and polls by the loop,
+    whatever is in the pipe still has its edge pending, i.e. the next epoll_wait reports the pipe -/
+theorem selfpipe_no_event_stranded (cfg : SelfPipe.Cfg) (hr : cfg.recur = true) (hb : 1 ≤ cfg.batch) (evs : List SelfPipe.Ev) :
+    stranded (SelfPipe.run cfg SelfPipe.init evs) = false := by
+  have h := sp_run_inv cfg hr hb evs SelfPipe.init (Or.inl rfl)
+  unfold stranded
+  rcases h with h | h
+  · simp [h]
+  · simp [h]
+
+/-- ★ … and every poll delivers everything written before it: after any history that ends with a poll, delivered = written -/
+theorem selfpipe_all_delivered_after_poll (cfg : SelfPipe.Cfg) (hr : cfg.recur = true) (hb : 1 ≤ cfg.batch) (evs : List SelfPipe.Ev) :
+    (SelfPipe.run cfg SelfPipe.init (evs ++ [.poll])).pipe = 0 ∧
+      (SelfPipe.run cfg SelfPipe.init (evs ++ [.poll])).delivered = (SelfPipe.run cfg SelfPipe.init (evs ++ [.poll])).written := by
+  have hc := selfpipe_conservation cfg (evs ++ [.poll]) SelfPipe.init rfl
+  have hi := sp_run_inv cfg hr hb evs SelfPipe.init (Or.inl rfl)
+  have hp : (SelfPipe.run cfg SelfPipe.init (evs ++ [.poll])).pipe = 0 := by
+    rw [sp_run_append]
+    generalize SelfPipe.run cfg SelfPipe.init evs = p at hi
+    simp only [SelfPipe.run, SelfPipe.step]
+    by_cases hrep : reported cfg p = true
+    · rw [if_pos hrep]
+      exact selfpipe_handle_drains cfg hr hb p.pipe p.pipe p.delivered (Nat.le_refl _)
+    · rw [if_neg hrep]
+      rcases hi with hi | hi
+      · exact hi
+      · -- armed, yet not reported: only possible level-triggered with an empty pipe
+        unfold reported at hrep
+        by_cases he : cfg.edge = true
+        · simp [he, hi] at hrep
+        · simp [he] at hrep; exact hrep
+  exact ⟨hp, by omega⟩
+
+/-- the tree's handler (regenerated configuration) strands nothing -/
+theorem selfpipe_gen_no_event_stranded (evs : List SelfPipe.Ev) :
+    stranded (SelfPipe.run SelfPipe.Cfg.ofGen SelfPipe.init evs) = false :=
+  selfpipe_no_event_stranded _ selfpipe_cfg_drains.1 selfpipe_cfg_drains.2 evs
+
+private theorem sp_run_writes (cfg : SelfPipe.Cfg) : ∀ (k : Nat) (p : SelfPipe.P),
+    SelfPipe.run cfg p (List.replicate (k + 1) .write) =
+      { pipe := p.pipe + (k + 1), armed := true, written := p.written + (k + 1), delivered := p.delivered }
+  | 0, p => by simp [SelfPipe.run, SelfPipe.step]
+  | k + 1, p => by
+    rw [List.replicate_succ]
+    simp only [SelfPipe.run]
+    rw [sp_run_writes cfg k]
+    simp [SelfPipe.step]
+    omega
+
+private theorem sp_run_polls_unarmed (cfg : SelfPipe.Cfg) (he : cfg.edge = true) : ∀ (n : Nat) (p : SelfPipe.P), p.armed = false →
+    SelfPipe.run cfg p (List.replicate n .poll) = p
+  | 0, p, _ => rfl
+  | n + 1, p, h => by
+    rw [List.replicate_succ]
+    simp only [SelfPipe.run, SelfPipe.step, reported, he, h, if_true]
+    simp
+    exact sp_run_polls_unarmed cfg he n p h
+
+/-- a handler that reads a bounded batch ONCE per report (seeded change C20-4: `goto recur` lost, 16 events per read): when
+    `b + 1` completions are queued at one report, `b` are delivered and the last one stays in the pipe for ever — however often
+    the loop polls afterwards, it is never reported again (edge-triggered) and delivered stays below written -/
+theorem bounded_read_strands_events (b n : Nat) :
+    SelfPipe.run { batch := b, recur := false, edge := true } SelfPipe.init
+        (List.replicate (b + 1) .write ++ List.replicate (n + 1) .poll) =
+      { pipe := 1, armed := false, written := b + 1, delivered := b } := by
+  rw [sp_run_append, sp_run_writes, List.replicate_succ]
+  simp only [SelfPipe.run]
+  have hm : min b (b + 1) = b := by omega
+  have hstep : SelfPipe.step { batch := b, recur := false, edge := true }
+      { pipe := SelfPipe.init.pipe + (b + 1), armed := true, written := SelfPipe.init.written + (b + 1), delivered := SelfPipe.init.delivered } .poll
+      = { pipe := 1, armed := false, written := b + 1, delivered := b } := by
+    simp [SelfPipe.step, reported, handle, SelfPipe.init, hm]
+  rw [hstep]
+  exact sp_run_polls_unarmed _ rfl n _ rfl
+
+/-- non-vacuity / the seeded configuration on concrete numbers: 40 completions queued, batch 16, no re-read: 16 delivered, 24
+    stranded after three polls; the tree's configuration delivers all 40 at the first poll -/
+example : (SelfPipe.run { batch := 16, recur := false, edge := true } SelfPipe.init
+    (List.replicate 40 .write ++ [.poll, .poll, .poll])) = { pipe := 24, armed := false, written := 40, delivered := 16 } := by decide
+example : (SelfPipe.run SelfPipe.Cfg.ofGen SelfPipe.init (List.replicate 40 .write ++ [.poll])) =
+    { pipe := 0, armed := false, written := 40, delivered := 40 } := by decide
+example : stranded (SelfPipe.run { batch := 16, recur := false, edge := true } SelfPipe.init
+    (List.replicate 17 .write ++ [.poll])) = true := by decide
+
+end SelfPipeSec
 
 /-! ## descriptors: every open descriptor has one responsible holder; no operation leaks or double-closes (session 3)
 
